@@ -102,6 +102,52 @@ impl Part for Variants {
     }
 }
 
+/// Part 2b: "no other 6-byte value decodes to it", judged with the library's own equality: the values decoded from the wire
+/// forms of two different configurations are never equal (and each equals itself), in every ordered pair.
+pub struct Distinct;
+impl Part for Distinct {
+    type Case = (String, String);
+    fn name(&self) -> &'static str {
+        "pairs-of-configurations-are-distinct"
+    }
+    fn check(&self, c: &(String, String), ev: &mut Local) -> Result<(), Fail> {
+        let (a, b) = (&c.0, &c.1);
+        let dec = |v: &String| -> Result<Track, Fail> {
+            guard(|| read_track(&expected_wire(v))).map_err(|p| Fail::new("c14:panic", p))?.map_err(|e| Fail::new("c14:read-table", format!("{v}: own wire form rejected: {e}")))
+        };
+        let (ta, tb) = (dec(a)?, dec(b)?);
+        #[allow(clippy::eq_op)]
+        let reflexive = ta == ta.clone() && !(ta != ta.clone());
+        ensure!(reflexive, "c14:equality", "{a}: the decoded value does not equal itself");
+        if a == b {
+            return Ok(());
+        }
+        let eq = guard(|| (ta == tb, ta != tb)).map_err(|p| Fail::new("c14:panic", p))?;
+        ensure!(
+            !eq.0 && eq.1,
+            "c14:two-wire-values-one-configuration",
+            "wire forms {:?} and {:?} decode to configurations that compare equal ({ta:?} == {tb:?}: {}, != : {}), although their codes are {:?} / {:?} and lap distances {:?} / {:?}",
+            expected_code(a),
+            expected_code(b),
+            eq.0,
+            eq.1,
+            ta.code(),
+            tb.code(),
+            ta.distance_mile(),
+            tb.distance_mile()
+        );
+        ev.nontrivial(c);
+        ev.class(if expected_code(a)[..2] == expected_code(b)[..2] { "same area" } else { "different areas" });
+        Ok(())
+    }
+    fn to_json(&self, c: &(String, String)) -> Value {
+        json!({"a": c.0, "b": c.1})
+    }
+    fn from_json(&self, v: &Value) -> Option<(String, String)> {
+        Some((v.get("a")?.as_str()?.to_string(), v.get("b")?.as_str()?.to_string()))
+    }
+}
+
 /// Part 2: one licence per track area (first two letters of the code).
 pub struct Licences;
 impl Part for Licences {
@@ -421,6 +467,7 @@ pub fn parts() -> Vec<Box<dyn DynPart>> {
     vec![
         Box::new(Variants),
         Box::new(Licences),
+        Box::new(Distinct),
         Box::new(Shaped),
         Box::new(Perturbed),
         Box::new(Random),
@@ -435,7 +482,7 @@ pub fn run(run: &mut Run) {
         "All {} configurations (variant list extracted from the enum declaration at build time; expected code = \
          upper-cased variant name) checked against every accessor table; complete enumeration of the 15.76 M strings \
          of shape [A-Za-z]{{2}}[0-9]{{1,2}}[A-Za-z]? NUL-padded to 6 bytes (decodes iff it is a configuration's wire form); \
-         every single-byte perturbation of every wire form; random 6-byte values; the wire forms and a seventh of the perturbations also through STA / RST / HOS frames (in different surroundings) and through readers that deliver the 6 bytes piecewise. Non-trivial = the value decodes to a \
+         every ordered pair of configurations compared with the library's own equality (different wire forms never decode to equal values); every single-byte perturbation of every wire form; random 6-byte values; the wire forms and a seventh of the perturbations also through STA / RST / HOS frames (in different surroundings) and through readers that deliver the 6 bytes piecewise. Non-trivial = the value decodes to a \
          configuration, is a perturbation of a wire form, or has >= 3 alphanumeric bytes.",
         TRACK_VARIANTS.len()
     );
@@ -448,6 +495,8 @@ pub fn run(run: &mut Run) {
     areas.sort();
     areas.dedup();
     run.list(&Licences, "licence-per-area", areas);
+    let nv = TRACK_VARIANTS.len() as u64;
+    run.enumerate(&Distinct, nv * nv, true, |i| Some((TRACK_VARIANTS[(i / nv) as usize].to_string(), TRACK_VARIANTS[(i % nv) as usize].to_string())));
     run.enumerate(&Shaped, 52 * 52, true, |i| {
         Some(BytesCase::Prefix(LETTERS[(i / 52) as usize], LETTERS[(i % 52) as usize]))
     });
